@@ -49,6 +49,8 @@ OPS = [
     (r" <= ", " < "), (r" < ", " <= "), (r" >= ", " > "), (r" > ", " >= "), (r" == ", " != "), (r" != ", " == "),
     (r" && ", " || "), (r" \|\| ", " && "),
     (r"\+ 1\b", "+ 0"), (r"- 1\b", "- 0"), (r"\b16\b", "15"), (r"\b12\b", "13"), (r"\b4\b", "5"), (r"\b8\b", "7"),
+    (r"^(\s*)(self\.\w+(\.\w+)* (=|\+=|-=) [^;]*;|\w+(\.\w+)*\.(push|extend|insert|extend_from_slice|update|truncate|clear)\([^;]*\);)\s*$", r"\1// (statement removed)"),
+    (r" \+= ", " -= "), (r"\bSome\((\w+)\)$", "None"),
     (r"\btrue\b", "false"), (r"\bfalse\b", "true"), (r"\.min\(", ".max("), (r"\.max\(", ".min("),
 ]
 
@@ -79,10 +81,25 @@ def candidates():
     for f in MAP:
         src = open(os.path.join("/repo", f)).read().split("\n")
         in_test = False
+        skip_depth = None      # inside an item behind #[cfg(feature = "unstable-async")]: not compiled in these builds
+        pending = False
+        depth = 0
         for ln, text in enumerate(src, 1):
             if "#[cfg(test)]" in text:
                 in_test = True
-            if in_test or ln in unc.get(f, set()):
+            if 'cfg(feature = "unstable-async")' in text:
+                pending = True
+            opens, closes = text.count("{"), text.count("}")
+            if pending and skip_depth is None and opens and not text.strip().startswith("#"):
+                skip_depth = depth
+                pending = False
+            depth += opens - closes
+            inside = skip_depth is not None
+            if skip_depth is not None and depth <= skip_depth:
+                skip_depth = None
+            if pending and text.strip().endswith(";") and not text.strip().startswith("#"):
+                pending = False; inside = True      # a one-line item (use ...;)
+            if in_test or inside or pending or ".await" in text or "async fn" in text or ln in unc.get(f, set()):
                 continue
             code = text.split("//")[0]
             if not code.strip() or code.strip().startswith(("#", "use ", "///", "pub use")) or "verif" in code:
